@@ -163,6 +163,67 @@ func extractC16(c *Ctx) {
 	c.Add("c16WatcherOrder", "List String", LeanStrList(order), src, "order in which aggregateWatcher.Close closes the router watchers")
 }
 
+func init() { register("c16close", extractC16Close) }
+
+// Statements of AdaptedClientConn.Close (grpcadapter/conn.go) in source order: state Load / Store, the call of the
+// underlying grpc.ClientConn.Close (`grpcClose`), whether its result is thrown away (`ignored-result`) or bound/tested
+// (`bound-result`), every other method call, every return.
+func extractC16Close(c *Ctx) {
+	const file = "grpcadapter/conn.go"
+	tr := []string{"<AdaptedClientConn.Close not found>"}
+	src := ""
+	if fd := c.FuncDecl(file, "AdaptedClientConn", "Close"); fd != nil {
+		src = c.Pos(fd)
+		tr = nil
+		ast.Inspect(fd.Body, func(n ast.Node) bool {
+			switch x := n.(type) {
+			case *ast.AssignStmt:
+				isClose := false
+				for _, r := range x.Rhs {
+					if ce, ok := r.(*ast.CallExpr); ok {
+						if se, ok := ce.Fun.(*ast.SelectorExpr); ok && se.Sel.Name == "Close" {
+							isClose = true
+						}
+					}
+				}
+				if isClose {
+					blank := true
+					for _, l := range x.Lhs {
+						if id, ok := l.(*ast.Ident); !ok || id.Name != "_" {
+							blank = false
+						}
+					}
+					if blank {
+						tr = append(tr, "ignored-result")
+					} else {
+						tr = append(tr, "bound-result")
+					}
+				}
+			case *ast.ExprStmt:
+				if ce, ok := x.X.(*ast.CallExpr); ok {
+					if se, ok := ce.Fun.(*ast.SelectorExpr); ok && se.Sel.Name == "Close" {
+						tr = append(tr, "ignored-result")
+					}
+				}
+			case *ast.CallExpr:
+				if se, ok := x.Fun.(*ast.SelectorExpr); ok {
+					switch se.Sel.Name {
+					case "Close":
+						tr = append(tr, "grpcClose")
+					case "Error": // status.Error(...) building the stored error value
+					default:
+						tr = append(tr, se.Sel.Name)
+					}
+				}
+			case *ast.ReturnStmt:
+				tr = append(tr, "return")
+			}
+			return true
+		})
+	}
+	c.Add("c16CloseTrace", "List String", LeanStrList(tr), src, "AdaptedClientConn.Close: no return between the underlying Close and the state Store; its result is ignored")
+}
+
 func init() { register("c16wait", extractC16Wait) }
 
 // Statements of AdaptedClientConn.waitForReady (grpcadapter/conn.go) before its `for` and inside the loop body, in
